@@ -646,9 +646,24 @@ func (tw *TumblingWindow) handleLateData(eventTime time.Time, allowedLateness ti
 
 // emitLateUpdateLocked re-emits a triggered window with its late rows. Called
 // with tw.mu held; releases it while delivering.
+//
+// Updates of one window are delivered one at a time: while an update is on its
+// way out the window counts as firing, so a late row arriving meanwhile is only
+// noted (handleLateData sets pendingLate) and goes out with the next round of this
+// loop. Without that, the trigger goroutine and the Add goroutine could each be
+// delivering an update of the same window, and the older one — extracted first,
+// delivered last — replaced the newer one at the consumer, losing its late rows.
 func (tw *TumblingWindow) emitLateUpdateLocked(slot *types.TimeSlot) {
-	resultData := tw.extractLateUpdateDataLocked(slot)
-	if len(resultData) > 0 {
+	key := tw.getWindowKey(*slot.End)
+	for {
+		resultData := tw.extractLateUpdateDataLocked(slot)
+		if len(resultData) == 0 {
+			return
+		}
+		info := tw.triggeredWindows[key]
+		if info != nil {
+			info.firing = true
+		}
 		callback := tw.callback
 		tw.mu.Unlock()
 		if callback != nil {
@@ -656,6 +671,17 @@ func (tw *TumblingWindow) emitLateUpdateLocked(slot *types.TimeSlot) {
 		}
 		tw.sendResult(resultData)
 		tw.mu.Lock()
+		if info == nil {
+			return
+		}
+		info.firing = false
+		if !info.pendingLate {
+			return
+		}
+		info.pendingLate = false
+		if _, open := tw.triggeredWindows[key]; !open {
+			return
+		}
 	}
 }
 
